@@ -119,6 +119,7 @@ type Specs struct {
 	TypeInvs  map[string][]Clause // per qualified struct type: invariants assumed for values of it
 	GhostVars map[string]*GhostField
 	Files     []string
+	Sweeps    []*Sweep
 }
 
 func NewSpecs() *Specs {
@@ -133,7 +134,7 @@ var clauseKeywords = map[string]bool{
 }
 var topKeywords = map[string]bool{
 	"func": true, "extern": true, "iface": true, "spec": true, "axiom": true, "lemma": true, "ghost": true,
-	"lockinv": true, "fieldfunc": true, "opaque": true, "pure": true, "typeinv": true, "functions": true,
+	"lockinv": true, "fieldfunc": true, "opaque": true, "pure": true, "typeinv": true, "functions": true, "sweep": true,
 }
 
 // qualify turns a name written inside package pkgPath into a full key.
@@ -538,6 +539,26 @@ func (sp *Specs) ParseFile(path, pkgPath string) error {
 			for _, t := range strings.Fields(l.rest) {
 				sp.Opaque[qualifyType(t, pkgPath)] = true
 			}
+			cur, curLoop = nil, nil
+		case "sweep":
+			// sweep <kind> [Cxx] <package path>...
+			sw := &Sweep{File: path, Line: l.line}
+			if m := propsRe.FindStringSubmatch(l.rest); m != nil {
+				for _, pr := range strings.Split(m[1], ",") {
+					sw.Props = append(sw.Props, strings.TrimSpace(pr))
+				}
+			}
+			for k, t := range strings.Fields(propsRe.ReplaceAllString(l.rest, " ")) {
+				if k == 0 {
+					sw.Kind = t
+				} else {
+					sw.Pkgs = append(sw.Pkgs, t)
+				}
+			}
+			if sw.Kind == "" || len(sw.Pkgs) == 0 || len(sw.Props) == 0 {
+				return fmt.Errorf("%s:%d: sweep <kind> [Cxx] <package path>...", path, l.line)
+			}
+			sp.Sweeps = append(sp.Sweeps, sw)
 			cur, curLoop = nil, nil
 		case "pure", "functions":
 			for _, t := range strings.Fields(l.rest) {
